@@ -2,6 +2,8 @@ package main
 
 import (
 	"fmt"
+	"os"
+	"path/filepath"
 	"strings"
 
 	log "github.com/go-spring/log"
@@ -23,6 +25,7 @@ type c12Case struct {
 	Seq    []int    `json:"payloads"`
 	Name   string   `json:"logger_name"`
 	LLevel string   `json:"logger_level"`
+	Tags   string   `json:"logger_tags,omitempty"` // "" = a wildcard that matches a registered tag; otherwise the tags attribute (matching NO registered tag: the logger is reachable through its handle only)
 }
 
 func init() {
@@ -54,12 +57,45 @@ func init() {
 				}
 			}
 			yield(c12Case{Kind: "Logger", Levels: []string{""}, Seq: []int{1}, Name: "someOtherName"})
+			// loggers that no registered tag resolves to: the named handle is their only user, and it is served all the same
+			for _, k := range []string{"Logger", "Logger+layout", "AsyncLogger", "AsyncLogger+layout", "File", "RollingFile", "RollingFile+async"} {
+				for _, tg := range []string{"_zz_nobody_*", "_zz_nobody", "_zz_a_*,_zz_b"} {
+					for _, s := range [][]int{{1}, {1, 2}, {3, 0, 1}} {
+						lv := [][]string{{""}, {"", "ERROR"}}
+						if strings.Contains(k, "File") {
+							lv = [][]string{nil}
+						}
+						for _, l := range lv {
+							yield(c12Case{Kind: k, Levels: l, Seq: s, Name: "c12named", Tags: tg})
+						}
+					}
+				}
+			}
 		},
 		func(c c12Case) (string, []Violation, int) {
 			confReset()
 			key := fmt.Sprintf("%s level=%q refs=%q payloads=%v", c.Kind, c.LLevel, c.Levels, c.Seq)
 			typ, layout, _ := strings.Cut(c.Kind, "+")
 			conf := map[string]string{"appender.unused.type": "Discard", "logger." + c.Name + ".type": typ, "logger." + c.Name + ".tags": "_vfx_*"}
+			if c.Tags != "" {
+				conf["logger."+c.Name+".tags"] = c.Tags
+				key += " tags=" + c.Tags
+			}
+			fileDir := ""
+			if strings.Contains(typ, "File") {
+				// logger kinds that own their file appender: the bytes are read back from the file(s)
+				fileDir = filepath.Join(c15Dir(), "c12h")
+				os.RemoveAll(fileDir)
+				os.MkdirAll(fileDir, 0o755)
+				conf["logger."+c.Name+".fileDir"], conf["logger."+c.Name+".fileName"] = fileDir, "h.log"
+				if typ == "RollingFile" {
+					conf["logger."+c.Name+".rotation"], conf["logger."+c.Name+".maxAge"] = "h", "24"
+					if layout == "async" {
+						conf["logger."+c.Name+".async"], conf["logger."+c.Name+".bufferSize"], conf["logger."+c.Name+".bufferFullPolicy"] = "true", "100", "Block"
+					}
+				}
+				layout = ""
+			}
 			if layout != "" {
 				conf["logger."+c.Name+".layout.type"] = "JSONLayout"
 			}
@@ -116,6 +152,17 @@ func init() {
 			}
 			if pn := safeCall(log.Destroy); pn != nil {
 				fail("destroy-panicked", fmt.Sprint(pn))
+			}
+			if fileDir != "" {
+				var all strings.Builder
+				ents, _ := os.ReadDir(fileDir)
+				for _, e := range ents {
+					b, _ := os.ReadFile(filepath.Join(fileDir, e.Name()))
+					all.Write(b)
+				}
+				if all.String() != strings.Join(want, "") {
+					fail("raw-writes-delivered", fmt.Sprintf("the file(s) of logger kind %s hold %s, want %s (%d file(s))", c.Kind, summarize([]string{all.String()}), summarize([]string{strings.Join(want, "")}), len(ents)))
+				}
 			}
 			for i := range c.Levels {
 				var got []string
